@@ -17,12 +17,13 @@ type Finding struct {
 // ClassOf names the framing peculiarity of a command (used in violation keys, so that one defect
 // gives one key whatever template or payload triggered it).
 func ClassOf(cmd *Cmd, caps int) string {
-	if cmd.Class != "" {
+	if strings.HasSuffix(cmd.Class, "-in-rejected-command-line") {
+		// the command is rejected for its syntax before any size is looked at
 		return cmd.Class
 	}
 	best := ""
+	order := []string{"", "literal", "short-literal", "oversized-sync-literal", "nonsync-append-literal-over-4096-without-LITERAL+", "nonsync-append-literal-over-append-limit", "refused-nonsync-literal"}
 	rank := func(s string) int {
-		order := []string{"", "literal", "short-literal", "oversized-sync-literal", "nonsync-append-literal-over-4096-without-LITERAL+", "nonsync-append-literal-over-append-limit", "refused-nonsync-literal"}
 		for i, o := range order {
 			if o == s {
 				return i
@@ -52,15 +53,31 @@ func ClassOf(cmd *Cmd, caps int) string {
 			best = c
 		}
 	}
+	// a peculiarity set by the generator wins unless the command carries a literal the server has
+	// to refuse for its size (then that is the more specific description)
+	if cmd.Class != "" && rank(best) < rank("oversized-sync-literal") {
+		return cmd.Class
+	}
 	return best
 }
 
 func mkKey(symptom, class string, cmd *Cmd) string {
-	switch {
-	case symptom == "literal-smuggling" && class == "refused-nonsync-literal":
-		return "literal-smuggling:refused-nonsync-literal-parsed"
-	case symptom == "no-tagged-response" && class == "junk-after-literal" && cmd != nil && strings.HasPrefix(cmd.Name, "APPEND"):
-		return "append-junk-tail-no-tagged-response"
+	isAppend := cmd != nil && strings.HasPrefix(cmd.Name, "APPEND")
+	switch class {
+	case "refused-nonsync-literal", "nonsync-append-literal-over-append-limit", "nonsync-append-literal-over-4096-without-LITERAL+", "nonsync-literal-in-rejected-command-line":
+		// one defect each, whatever the symptom (marker executed as a command, marker in a backend
+		// call, foreign tagged responses)
+		if symptom == "literal-smuggling" || symptom == "unexpected-tagged-response" {
+			return "literal-smuggling:" + class + "-parsed"
+		}
+	case "over-long-continuation-line":
+		if symptom == "literal-smuggling" || symptom == "unexpected-tagged-response" {
+			return "over-long-continuation-line:tail-executed-as-command"
+		}
+	case "junk-after-literal", "junk-tail":
+		if symptom == "no-tagged-response" && isAppend {
+			return "append-junk-tail-no-tagged-response"
+		}
 	}
 	if class == "" {
 		class = "ordinary-command"
@@ -115,19 +132,32 @@ func Judge(res *Result) []Finding {
 		}
 		fs = append(fs, Finding{Key: mkKey(symptom, class, cmd), Msg: fmt.Sprintf(format, a...), Cmd: ci})
 	}
-	// culprit for sequence-level symptoms: the first command with a peculiarity, else the given one
-	culprit := func(deflt int) int {
-		for i := range st.Cmds {
-			if ClassOf(&st.Cmds[i], st.Caps) != "" && ClassOf(&st.Cmds[i], st.Caps) != "literal" {
+	// culprit for sequence-level symptoms: the command where the sequences diverge if it has a
+	// peculiarity, else the nearest earlier command with one, else the nearest later one
+	culprit := func(at int) int {
+		odd := func(i int) bool {
+			c := ClassOf(&st.Cmds[i], st.Caps)
+			return c != "" && c != "literal"
+		}
+		if at < 0 || at >= len(st.Cmds) {
+			at = len(st.Cmds) - 1
+		}
+		for i := at; i >= 0; i-- {
+			if odd(i) {
 				return i
 			}
 		}
-		for i := range st.Cmds {
+		for i := at + 1; i < len(st.Cmds); i++ {
+			if odd(i) {
+				return i
+			}
+		}
+		for i := at; i >= 0; i-- {
 			if ClassOf(&st.Cmds[i], st.Caps) != "" {
 				return i
 			}
 		}
-		return deflt
+		return at
 	}
 	cmdOfTag := func(tag string) int {
 		for i := range st.Cmds {
@@ -145,7 +175,7 @@ func Judge(res *Result) []Finding {
 		add("malformed-output", culprit(0), "output is not a sequence of whole responses: err=%v rest=%q", perr, clip(string(rest), 120))
 	}
 
-	// (b) tagged completions = complete framed commands, in order, one each
+	// tagged completions in the output
 	var T []string
 	status := map[string]string{}
 	for _, r := range resps {
@@ -157,43 +187,12 @@ func Judge(res *Result) []Finding {
 			}
 		}
 	}
-	E := res.Expected
-	limit := len(E)
-	if res.Loose >= 0 && res.Loose < limit {
-		limit = res.Loose
-	}
-	closedEarly := res.ClosedAt >= 0
-	seqOK := true
-	for i := 0; i < len(T) && i < limit; i++ {
-		if T[i] != E[i] {
-			seqOK = false
-			ci := cmdOfTag(E[i])
-			add("unexpected-tagged-response", culprit(ci), "tagged completion #%d carries tag %q, the complete commands are %v (got %v)", i, clip(T[i], 40), E, clipAll(T, 40))
-			break
-		}
-	}
-	if seqOK && res.Loose < 0 && len(T) > len(E) {
-		extra := T[len(E):]
-		ok := false
-		if res.Incomplete && len(extra) == 1 {
-			// an error completion for the command the client abandoned half-way is harmless
-			last := st.Cmds[len(st.Cmds)-1]
-			if res.SentCmds < len(st.Cmds) {
-				last = st.Cmds[res.SentCmds]
-			}
-			if extra[0] == last.Tag && status[last.Tag] != "OK" {
-				ok = true
-			}
-		}
-		if !ok {
-			seqOK = false
-			add("unexpected-tagged-response", culprit(len(st.Cmds)-1), "more tagged completions than complete commands: got %v, complete commands %v", clipAll(T, 40), E)
-		}
-	}
-	if seqOK && len(T) < limit && !closedEarly && res.End.Hang == "" {
-		seqOK = false
-		ci := cmdOfTag(E[len(T)])
-		add("no-tagged-response", culprit(ci), "complete command %q got no tagged completion and the server did not close the connection: got %v, complete commands %v", E[len(T)], clipAll(T, 40), E)
+	// Expected has one entry per command sent, in order, so an index into it is a command index:
+	// commands from looseCmd on were sent into a framing the client itself broke (or the server
+	// left undefined by not answering)
+	looseCmd := len(st.Cmds)
+	if res.Loose >= 0 {
+		looseCmd = res.Loose
 	}
 
 	// (c) smuggled markers
@@ -203,11 +202,11 @@ func Judge(res *Result) []Finding {
 	}
 	markers := map[string]owner{}
 	exempt := map[*Lit]bool{}
+	exemptJunk := map[int]bool{}
 	for _, p := range res.Points {
-		if p.Lit != nil && !p.Plus && p.SentMore {
+		if !p.Plus && p.SentMore {
 			// the client ignored the missing "+": what it sent is, by the protocol, new command text
-			exempt[p.Lit] = true
-			// and so is every later literal of that command
+			exemptJunk[p.Cmd] = true
 			for _, ch := range st.Cmds[p.Cmd].Chunks {
 				if ch.Lit != nil {
 					exempt[ch.Lit] = true
@@ -225,23 +224,28 @@ func Judge(res *Result) []Finding {
 			markers[j] = owner{nil, ci}
 		}
 	}
-	// Expected has one entry per command sent, in order, so an index into it is a command index:
-	// commands from looseCmd on were sent into a framing the client itself broke (or the server
-	// left undefined by not answering)
-	looseCmd := len(st.Cmds)
-	if res.Loose >= 0 {
-		looseCmd = res.Loose
+	isExempt := func(o owner) bool {
+		if o.cmd >= looseCmd {
+			return true
+		}
+		if o.lit != nil {
+			return exempt[o.lit]
+		}
+		return exemptJunk[o.cmd]
 	}
+	var mnames []string
+	for m := range markers {
+		mnames = append(mnames, m)
+	}
+	sortStrings(mnames)
 	smuggled := map[string]bool{}
 	for _, r := range resps {
 		if r.Tag == "*" || r.Tag == "+" {
 			continue
 		}
-		for m, o := range markers {
-			if strings.Contains(r.Tag, m) && !smuggled[m] {
-				if (o.lit != nil && exempt[o.lit]) || o.cmd >= looseCmd && res.Loose >= 0 && o.lit == nil {
-					continue
-				}
+		for _, m := range mnames {
+			o := markers[m]
+			if strings.Contains(r.Tag, m) && !smuggled[m] && !isExempt(o) {
 				smuggled[m] = true
 				add("literal-smuggling", o.cmd, "text %q that is not a command (%s) was executed as a command: the output contains the tagged response %q", clip(r.Tag, 40), whatIs(o.lit), clip(clip(r.Tag, 40)+" "+r.Text, 100))
 			}
@@ -252,19 +256,14 @@ func Judge(res *Result) []Finding {
 			continue
 		}
 		for _, s := range Strings(call) {
-			for m, o := range markers {
-				if !strings.Contains(s, m) || smuggled[m] {
+			for _, m := range mnames {
+				o := markers[m]
+				if !strings.Contains(s, m) || smuggled[m] || isExempt(o) {
 					continue
 				}
 				if o.lit == nil {
-					if o.cmd >= looseCmd && res.Loose >= 0 {
-						continue
-					}
 					smuggled[m] = true
 					add("literal-smuggling", o.cmd, "junk text reached the backend: %s(... %q ...)", call.Method, clip(s, 80))
-					continue
-				}
-				if exempt[o.lit] {
 					continue
 				}
 				l := o.lit
@@ -287,22 +286,102 @@ func Judge(res *Result) []Finding {
 			}
 		}
 	}
+	hasSmuggled := func(tag string) bool {
+		for m := range smuggled {
+			if strings.Contains(tag, m) {
+				return true
+			}
+		}
+		return false
+	}
+
+	// (b) tagged completions = complete framed commands, in order, one each
+	E := res.Expected
+	limit := len(E)
+	if res.Loose >= 0 && res.Loose < limit {
+		limit = res.Loose
+	}
+	closedEarly := res.ClosedAt >= 0
+	seqOK := true
+	// tags already reported as executed smuggled text are not reported again as foreign tags
+	var Tc []string
+	for _, t := range T {
+		if !hasSmuggled(t) {
+			Tc = append(Tc, t)
+		} else {
+			seqOK = false
+		}
+	}
+	for i := 0; i < len(Tc) && i < limit; i++ {
+		if Tc[i] == E[i] {
+			continue
+		}
+		seqOK = false
+		later := false
+		for j := i + 1; j < len(E); j++ {
+			if E[j] == Tc[i] {
+				later = true
+			}
+		}
+		if res.Incomplete && res.SentCmds < len(st.Cmds) && Tc[i] == st.Cmds[res.SentCmds].Tag {
+			// a completion for the abandoned last command: so E[i] is missing
+			later = true
+		}
+		ci := cmdOfTag(E[i])
+		if later {
+			add("no-tagged-response", culprit(ci), "complete command %q got no tagged completion (the next completion is %q): got %v, complete commands %v", E[i], clip(Tc[i], 40), clipAll(T, 40), E)
+		} else {
+			add("unexpected-tagged-response", culprit(ci), "tagged completion #%d carries tag %q, the complete commands are %v (got %v)", i, clip(Tc[i], 40), E, clipAll(T, 40))
+		}
+		break
+	}
+	if seqOK && res.Loose < 0 && len(Tc) > len(E) {
+		extra := Tc[len(E):]
+		ok := false
+		if res.Incomplete && len(extra) == 1 && res.SentCmds < len(st.Cmds) {
+			// an error completion for the command the client abandoned half-way is harmless
+			last := st.Cmds[res.SentCmds]
+			if extra[0] == last.Tag && status[last.Tag] != "OK" {
+				ok = true
+			}
+		}
+		if !ok {
+			seqOK = false
+			add("unexpected-tagged-response", culprit(len(st.Cmds)-1), "more tagged completions than complete commands: got %v, complete commands %v", clipAll(T, 40), E)
+		}
+	}
+	if seqOK && len(Tc) < limit && !closedEarly && res.End.Hang == "" {
+		seqOK = false
+		ci := cmdOfTag(E[len(Tc)])
+		add("no-tagged-response", culprit(ci), "complete command %q got no tagged completion and the server did not close the connection: got %v, complete commands %v", E[len(Tc)], clipAll(T, 40), E)
+	}
 
 	// (d) continuation requests
 	for bi, b := range res.Batches {
-		plus := 0
+		if b.Cmd >= looseCmd {
+			continue
+		}
 		for i, r := range b.Resps {
-			if r.Tag == "+" {
-				plus++
-				if !b.PlusOK || i != len(b.Resps)-1 {
-					if b.Cmd < looseCmd || res.Loose < 0 {
-						add("unexpected-continuation-request", b.Cmd, "continuation request %q after %s (batch %d): nothing the client sent asks for one", clip(r.Text, 40), b.After, bi)
-					}
+			if r.Tag != "+" {
+				continue
+			}
+			legal := b.PlusOK
+			for _, later := range b.Resps[i+1:] {
+				// after a continuation request the server waits; only the idle goroutine's untagged
+				// updates may follow
+				if later.Tag != "*" || b.After != "idle-line" {
+					legal = false
 				}
+			}
+			if !legal {
+				add("unexpected-continuation-request", b.Cmd, "continuation request %q after %s (batch %d): nothing the client sent asks for one", clip(r.Text, 40), b.After, bi)
 			}
 		}
 	}
 	for _, p := range res.Points {
+		if p.Loose {
+			continue
+		}
 		closedHere := res.ClosedAt >= 0 && res.ClosedAt <= p.Cmd
 		switch p.Kind {
 		case "sync-literal":
@@ -329,7 +408,7 @@ func Judge(res *Result) []Finding {
 		if b := cmd.Benign; b != nil && known && b.States&(1<<uint(state)) != 0 && (!b.NeedLiteralPlus || st.Caps == CapsLiteralPlus) && seqOK && !closedEarly {
 			if status[cmd.Tag] != "OK" {
 				add("valid-command-rejected", ci, "command %s is valid in state %s but was answered %q", cmd.Name, StateName[state], status[cmd.Tag])
-			} else if !st.Pipelined {
+			} else if !st.Pipelined && b.Method != "" {
 				found := false
 				for i, call := range res.Calls {
 					if res.CallCmd[i] != ci || call.Method != b.Method {
@@ -358,6 +437,23 @@ func Judge(res *Result) []Finding {
 			}
 		}
 		state, known = stateAfter(state, known, cmd, st.Caps)
+	}
+	// once the framing has gone wrong at one command, what happens to later commands is a
+	// consequence: report the earliest culprit only (each defect also occurs alone elsewhere)
+	if len(fs) > 1 {
+		first := len(st.Cmds)
+		for _, f := range fs {
+			if f.Cmd >= 0 && f.Cmd < first {
+				first = f.Cmd
+			}
+		}
+		var keep []Finding
+		for _, f := range fs {
+			if f.Cmd == first || f.Cmd < 0 {
+				keep = append(keep, f)
+			}
+		}
+		fs = keep
 	}
 	return fs
 }
@@ -453,4 +549,14 @@ func Wire(st *Stream) string {
 		sb.WriteString(c.Cont)
 	}
 	return sb.String()
+}
+
+func sortStrings(s []string) {
+	for i := range s {
+		for j := i + 1; j < len(s); j++ {
+			if s[j] < s[i] {
+				s[i], s[j] = s[j], s[i]
+			}
+		}
+	}
 }
